@@ -731,15 +731,15 @@ func (r *rw) rangeStmt(x *ast.RangeStmt, label string) ast.Stmt {
 		}
 		return x
 	}
-	origX := x.X
+	// the site is described by the ORIGINAL expression (r.expr rewrites the tree in place)
+	siteArg := ast.Expr(&ast.UnaryExpr{Op: token.SUB, X: intLit(1)})
+	if !noAccess {
+		siteArg = r.site(x.X, false)
+	}
 	mexpr := r.expr(x.X)
 	r.blockStmt(x.Body)
 	mv := r.tmp()
 	kv := r.tmp()
-	siteArg := ast.Expr(&ast.UnaryExpr{Op: token.SUB, X: intLit(1)})
-	if !noAccess {
-		siteArg = r.site(origX, false)
-	}
 	head := []ast.Stmt{&ast.AssignStmt{Lhs: []ast.Expr{id("_")}, Tok: token.ASSIGN, Rhs: []ast.Expr{id(kv)}}}
 	isBlank := func(e ast.Expr) bool {
 		if e == nil {
